@@ -136,6 +136,9 @@ def c01_requirements(api, run):
 
 # ------------------------------------------------------------------------------- C02
 def c02_exactly_once(api, run):
+    for n in getattr(run, "removed", []):
+        if run.evs(n.name, "start", "run_begin"):
+            fail(api, "C02: %s was removed from the scheduler before the run and was started nevertheless" % n, run)
     for n in run.all_nodes():
         k = len(run.evs(n.name, "run_begin" if n.is_sched else "start"))
         if k > 1:
@@ -215,6 +218,12 @@ def admissible(api, run):
 
 
 def c03_progress(api, run):
+    if run.outcome[0] == "exc" and not isinstance(run.outcome[1], (Boom, TimeoutError)):
+        # neither a verdict nor one of the documented exceptions of a critical scheduler: the orchestration broke
+        # down with jobs left over (typically ValueError('Set of Tasks/Futures is empty.'))
+        unstarted = [n.name for n in run.top.children if run.started(n) is None]
+        fail(api, "C03: run() does not finish the orchestration: it dies with %s: %s; never started: %s"
+             % (type(run.outcome[1]).__name__, run.outcome[1], unstarted), run)
     if run.outcome[0] in ("deadlock", "horizon"):
         fail(api, "C03: run() does not terminate (%s): nothing ready and no timer armed" % run.outcome[0]
              if run.outcome[0] == "deadlock" else "C03: run() does not terminate (event-loop horizon reached)", run)
@@ -408,8 +417,9 @@ def c05_critical_abort(api, run, require=False):
             continue
         over = run_over_ev(run, s)
         if over is None:
-            # the run of s never ended (hang / orphaned by its parent): C03 / C11 territory
-            continue
+            if run.outcome[0] in ("deadlock", "horizon") and s.parent is None:
+                fail(api, "C05: the run of %s never ended after the critical failure of %s" % (s, e.who), run)
+            continue            # orphaned by its parent: C11 territory
         if over.kind == "run_cancel":
             continue            # s was itself cancelled by its parent meanwhile
         found = True
@@ -661,6 +671,8 @@ def c08_timeout(api, run):
             if st is not None:
                 prove(api, st.t <= D, "C08: %s started after the timeout of %s expired" % (m, s), run)
         over = run_over_ev(run, s)
+        if over is None and s.parent is None and run.outcome[0] in ("deadlock", "horizon"):
+            fail(api, "C08: %s has a timeout and its run never ended" % s, run)
         if over is None or over.kind == "run_cancel":
             continue
         api.note("nt")
